@@ -184,6 +184,8 @@ def ext_file_path(env, which):
         return env.data_abspath
     if which == "other":
         return os.path.join(env.dest_dir, "weights.bin")
+    if which == "otherdir_samename":  # a model that was loaded from <src>/<name> (+ <name>.data) and is saved as <dest>/<name>
+        return os.path.join(env.src_dir, os.path.basename(env.data_abspath))
     return os.path.join(env.src_dir, "weights_elsewhere.bin")
 
 
@@ -943,12 +945,31 @@ def specs(draw):
             if init["kind"] == "lazy":
                 init["cache"] = draw(st.booleans())
             if init["kind"] == "ext":
-                init["ext"] = {"file": draw(st.sampled_from(["other", "other", "otherdir", "dest"])),
+                init["ext"] = {"file": draw(st.sampled_from(["other", "other", "otherdir", "dest", "otherdir_samename"])),
                                "gap": draw(st.sampled_from([0, 0, 16, 100, 4096])), "touched": draw(st.booleans())}
                 init["tdoc"] = False
         if init["where"] == "main":
             init["as_input"] = chance(1, 5)
         inits.append(init)
+    if n and chance(1, 6):
+        # re-export of a loaded model: every tensor above the threshold is external in a data file of the SAME NAME as the destination's,
+        # in another directory; the rest is small
+        for init in inits:
+            if init.get("kind") == "string":
+                continue
+            if init["kind"] == "ext" or chance(2, 3):
+                init["kind"] = "ext"
+                init["ext"] = {"file": "otherdir_samename", "gap": draw(st.sampled_from([0, 0, 16])), "touched": draw(st.booleans())}
+                init["tdoc"] = False
+                init.pop("cache", None)
+            else:
+                init["kind"] = "np"
+                init["shape"] = [di(0, 3)] if init["dtype"] not in SUB_DTYPES else [di(0, 6)]
+                init.pop("cache", None)
+    th = [i for i in inits if i["where"] == "then"]
+    el = [i for i in inits if i["where"] == "else"]
+    if th and el and chance(1, 2):
+        el[0]["name"] = th[0]["name"]  # sibling scopes are independent in ONNX: the branches own different tensors under one name
     u = draw(st.sampled_from(range(20)))
     if u == 0 or (u == 1 and n):  # uninitialised initializer (u==0: extra one; u==1: among others, possibly in a subgraph)
         inits.insert(di(0, len(inits)), {"name": names[n], "dtype": draw(st.sampled_from(["FLOAT", "INT64", "FLOAT16"])),
